@@ -44,7 +44,10 @@ def draw_config(rng, wl, tier):
     cfg = {
         "num_procs": n, "override": None, "backend": "agg" if rng.random() < 0.85 else "tkagg",
         "np_seed": 777 if wl.get("stochastic") else rng.randrange(2**31),
-        "faults": ["F2"] if rng.random() < 0.4 else [], "dur_scale": 0.01, "fail": [],
+        "faults": ["F2"] if rng.random() < 0.4 else [],
+        # durations far below every time limit (cnls has timeout=60): even a x1000 straggler on a x100
+        # slow worker stays under it, so that no run of this check can legitimately time out
+        "dur_scale": 1e-6, "fail": [],
         "shared_memory": rng.random() < 0.2, "callbacks": rng.choice([0, 1]), "extra_kwargs": None,
         "data_variant": {"garbage": rng.randrange(1, 10**6) if rng.random() < 0.6 else None,
                          "order": "asc" if rng.random() < 0.35 else "desc",
